@@ -103,7 +103,7 @@ func newL2Server() *l2server {
 			var rh hagallws.Handler = &hagallws.RealtimeHandler{
 				ClientSyncClockInterval: dur(q, "sync", 5*time.Second),
 				ClientIdleTimeout:       dur(q, "idle", 5*time.Minute),
-				FrameDuration:           15 * time.Millisecond,
+				FrameDuration:           dur(q, "frame", 15*time.Millisecond),
 				Sessions:                s.store,
 				Modules:                 []modules.Module{&vikja.Module{}, &odal.Module{}, &dagaz.Module{}},
 				FeatureFlags:            featureflag.New(nil),
@@ -150,6 +150,21 @@ func (s *l2server) rec(tag string, wait time.Duration) *connRec {
 	}
 }
 
+// liveShells: connection shells whose websocket.Handle has not returned yet
+func (s *l2server) liveShells() int {
+	s.mu.Lock()
+	defer s.mu.Unlock()
+	n := 0
+	for _, r := range s.recs {
+		select {
+		case <-r.returned:
+		default:
+			n++
+		}
+	}
+	return n
+}
+
 func gaugeClients() float64 {
 	mfs, err := prometheus.DefaultGatherer.Gather()
 	if err != nil {
@@ -179,6 +194,49 @@ func handlerGoroutines() int {
 		}
 	}
 	return n
+}
+
+var goroutineHdr = regexp.MustCompile(`^goroutine (\d+) \[([^\]]+)\]`)
+var siteRe = regexp.MustCompile(`/(websocket/handler\.go|hagall-common@[^/]+/websocket/msg\.go|websocket/realtime\.go|websocket/logs\.go|websocket/metrics\.go|models/[a-z_]+\.go):(\d+)`)
+
+var seenGoroutines = map[string]bool{}
+
+// wedgeSites describes the goroutines of connection shells that are blocked and were not reported before
+func wedgeSites() string {
+	var buf bytes.Buffer
+	pprof.Lookup("goroutine").WriteTo(&buf, 2)
+	var out []string
+	for _, g := range strings.Split(buf.String(), "\n\n") {
+		if !handlerFrame.MatchString(g) || strings.Contains(g, "startSummaryWorker") {
+			continue
+		}
+		m := goroutineHdr.FindStringSubmatch(g)
+		if m == nil || seenGoroutines[m[1]] {
+			continue
+		}
+		state := strings.Split(m[2], ",")[0]
+		if state == "select" || state == "IO wait" || state == "running" || state == "runnable" {
+			continue
+		}
+		seenGoroutines[m[1]] = true
+		role := "main"
+		if strings.Contains(g, "startReceiving") {
+			role = "receiver"
+		} else if strings.Contains(g, "startSending") {
+			role = "sender"
+		}
+		site := ""
+		if sm := siteRe.FindStringSubmatch(g); sm != nil {
+			f := sm[1]
+			if i := strings.Index(f, "hagall-common"); i >= 0 {
+				f = "hagall-common/websocket/msg.go"
+			}
+			site = f + ":" + sm[2]
+		}
+		out = append(out, fmt.Sprintf("%s[%s]@%s", role, state, site))
+	}
+	sort.Strings(out)
+	return strings.Join(out, " ")
 }
 
 // ---------------------------------------------------------------- client side
@@ -361,7 +419,15 @@ func (s *l2server) members(sid string) ([]uint32, error) {
 	if err != nil {
 		return nil, err
 	}
-	defer p.tcp.Close()
+	defer func() {
+		p.tcp.Close()
+		if r := s.rec(p.tag, time.Second); r != nil {
+			select {
+			case <-r.returned:
+			case <-time.After(2 * time.Second):
+			}
+		}
+	}()
 	p.startReading()
 	rid := nextRid()
 	if err := p.send(&hagallpb.ParticipantJoinRequest{Type: hagallpb.MsgType_MSG_TYPE_PARTICIPANT_JOIN_REQUEST, Timestamp: now(), RequestId: rid, SessionId: sid}); err != nil {
@@ -525,12 +591,16 @@ func (e *l2env) observe(o *offender, out *Outcome) {
 		out.Note += "no server-side record; "
 	}
 	out.ReturnMs = time.Since(t0).Milliseconds()
+	if !out.Returned {
+		out.Note += "blocked: " + wedgeSites() + "; "
+	}
 	// gauge and goroutines settle shortly after the return
 	settle := time.Now().Add(time.Second)
 	if !out.Returned {
 		settle = time.Now()
 	}
 	for {
+		// no other connection is opened or closed by the harness between begin and here
 		out.GaugeBack = gaugeClients() == o.g0
 		out.GoroutinesBack = handlerGoroutines() <= o.n0
 		if (out.GaugeBack && out.GoroutinesBack) || time.Now().After(settle) {
@@ -680,6 +750,33 @@ func (e *l2env) scriptBurst(n int, joined bool, rep int) Outcome {
 	return out
 }
 
+// burstmix: a member sends one failing request followed, in the same TCP write, by n valid requests and
+// pose updates: the scheduler queue fills up while the main loop is ending the connection
+func (e *l2env) scriptBurstMix(n int, rep int, params string) Outcome {
+	out := Outcome{Script: "burst_mixed", Param: n, Rep: rep}
+	o, err := e.begin(true, params, 0)
+	if err != nil {
+		out.Note = "setup: " + err.Error()
+		out.Class = "setup-failed"
+		return out
+	}
+	var buf []byte
+	for i := 0; i < 5; i++ {
+		buf = append(buf, frame(2, mustMarshal(&hagallpb.EntityUpdatePose{Type: hagallpb.MsgType_MSG_TYPE_ENTITY_UPDATE_POSE, Timestamp: now(), EntityId: o.ents[0], Pose: pose(float32(i))}))...)
+	}
+	buf = append(buf, frame(2, failingJoined())...)
+	for i := 0; i < n; i++ {
+		buf = append(buf, frame(2, mustMarshal(&hagallpb.Request{Type: hagallpb.MsgType_MSG_TYPE_PING_REQUEST, Timestamp: now(), RequestId: nextRid()}))...)
+		if i%3 == 0 {
+			buf = append(buf, frame(2, mustMarshal(&hagallpb.EntityUpdatePose{Type: hagallpb.MsgType_MSG_TYPE_ENTITY_UPDATE_POSE, Timestamp: now(), EntityId: o.ents[0], Pose: pose(float32(i))}))...)
+		}
+	}
+	o.c.tcp.Write(buf)
+	e.observe(o, &out)
+	o.c.tcp.Close()
+	return out
+}
+
 // malformed frames
 func (e *l2env) scriptMalformed(kind int, joined bool) Outcome {
 	names := []string{"truncated_protobuf", "text_frame", "no_timestamp", "garbage_1MiB", "raw_garbage_bytes", "undecodable_body", "huge_declared_length", "unknown_opcode"}
@@ -777,76 +874,110 @@ func (e *l2env) scriptReset(k int) Outcome {
 	return out
 }
 
-// stall: the offender (member of S1) stops reading while the witness floods the session; then it closes
-func (e *l2env) scriptStallThenClose() Outcome {
-	out := Outcome{Script: "stall_then_close"}
-	// two members of S1 besides the witness: `o`, which reads normally and is observed like every
-	// other offender, and `st`, which joins and never reads (small receive buffer)
-	o, err := e.begin(true, "", 0)
-	if err != nil {
+// stall: a member of S1 stops reading while another member floods the session; then it resets.
+// Observed offender = the stalled member.
+func (e *l2env) scriptStall(variant int) Outcome {
+	out := Outcome{Script: "stall_then_close", Param: variant}
+	params := ""
+	if variant == 1 {
+		out.Script = "stall_silent_idle"
+		params = "idle=700ms&sync=50ms"
+	}
+	fail := func(err error) Outcome {
 		out.Note = "setup: " + err.Error()
 		out.Class = "setup-failed"
 		return out
 	}
-	st, err := e.s.dial("", 4096)
+	o := &offender{g0: gaugeClients(), n0: handlerGoroutines(), w1mark: e.w1.mark(), joined: true}
+	// the flooder: an ordinary member that reads (and discards) what it is sent
+	fl, err := e.s.dial("", 0)
 	if err != nil {
-		out.Note = "setup: " + err.Error()
-		out.Class = "setup-failed"
-		return out
+		return fail(err)
 	}
-	// join without ever reading: the request is written, answers pile up
+	fl.startReading()
+	if _, _, err := fl.join(e.s1); err != nil {
+		return fail(err)
+	}
+	closeFlooder := func() {
+		fl.tcp.Close()
+		if r := e.s.rec(fl.tag, time.Second); r != nil {
+			select {
+			case <-r.returned:
+			case <-time.After(e.deadline):
+			}
+		}
+	}
+	// the stalled member: joins, reads up to its join response, then never reads again (small receive buffer)
+	st, err := e.s.dial(params, 4096)
+	if err != nil {
+		return fail(err)
+	}
+	o.c = st
 	st.send(&hagallpb.ParticipantJoinRequest{Type: hagallpb.MsgType_MSG_TYPE_PARTICIPANT_JOIN_REQUEST, Timestamp: now(), RequestId: nextRid(), SessionId: e.s1})
-	time.Sleep(50 * time.Millisecond)
-	// flood: the witness sends custom messages, relayed to every member, the stalled one included
+	st.tcp.SetReadDeadline(time.Now().Add(3 * time.Second))
+	for o.pid == 0 {
+		var b []byte
+		if err := websocket.Message.Receive(st.ws, &b); err != nil {
+			return fail(err)
+		}
+		var m hagallpb.ParticipantJoinResponse
+		if proto.Unmarshal(b, &m) == nil && m.Type == hagallpb.MsgType_MSG_TYPE_PARTICIPANT_JOIN_RESPONSE {
+			o.pid = m.ParticipantId
+		}
+	}
+	st.tcp.SetReadDeadline(time.Time{})
+	// flood: custom messages relayed to every member, the stalled one included
 	body := make([]byte, 10000)
 	sent := 0
 	floodDone := make(chan struct{})
 	go func() {
 		defer close(floodDone)
 		for i := 0; i < 2500; i++ {
-			e.w1.tcp.SetWriteDeadline(time.Now().Add(2 * time.Second))
-			if err := e.w1.send(&hagallpb.CustomMessage{Type: hagallpb.MsgType_MSG_TYPE_CUSTOM_MESSAGE, Timestamp: now(), Body: body}); err != nil {
-				break
+			fl.tcp.SetWriteDeadline(time.Now().Add(1500 * time.Millisecond))
+			if err := fl.send(&hagallpb.CustomMessage{Type: hagallpb.MsgType_MSG_TYPE_CUSTOM_MESSAGE, Timestamp: now(), Body: body}); err != nil {
+				return
 			}
 			sent++
 		}
-		e.w1.tcp.SetWriteDeadline(time.Time{})
 	}()
 	select {
 	case <-floodDone:
-	case <-time.After(6 * time.Second):
+	case <-time.After(5 * time.Second):
 	}
-	// while the member is stalled: is the flooding witness's own shell still responsive?
-	stalledPeerBlocked := !e.w1.ping(500 * time.Millisecond)
+	// while the member is stalled
+	witnessOK := e.w1.ping(time.Second)
 	otherOK := e.w2.ping(2 * time.Second)
-	out.Note = fmt.Sprintf("flood sent=%d; while stalled: same-session witness blocked=%v, other session ok=%v; ", sent, stalledPeerBlocked, otherOK)
-	// the stalled client goes away
-	strec := e.s.rec(st.tag, time.Second)
-	st.reset()
-	<-floodDone
-	if strec != nil {
-		select {
-		case <-strec.returned:
-			out.Note += "stalled member's shell returned; "
-		case <-time.After(e.deadline):
-			out.Note += "stalled member's shell did NOT return; "
-			out.Returned = false
-			out.Class = "wedged"
-		}
-	}
-	// the regular offender (a reading member that saw the flood) now closes abruptly; observe it
-	o.c.reset()
-	e.observe(o, &out)
-	if strec != nil {
-		select {
-		case <-strec.returned:
-			if atomic.LoadInt32(&strec.discCalls) != 1 || !strec.normal {
-				out.Class = "ghost"
-				out.Note += fmt.Sprintf("stalled member: disconnect calls=%d normal=%v; ", strec.discCalls, strec.normal)
+	out.Note = fmt.Sprintf("flood: %d of 2500 messages accepted before the flooder's own connection stopped draining; while stalled: same-session witness answered=%v, other session answered=%v; ", sent, witnessOK, otherOK)
+	if variant == 0 {
+		// the stalled client goes away
+		st.reset()
+		<-floodDone
+		closeFlooder()
+		e.observe(o, &out)
+	} else {
+		// the stalled client stays: silent for more than the idle timeout by now, the server must end it
+		fl.tcp.SetWriteDeadline(time.Now())
+		<-floodDone
+		if rec := e.s.rec(st.tag, time.Second); rec != nil {
+			select {
+			case <-rec.returned:
+				out.Note += "ended by the server on its own; "
+			case <-time.After(e.deadline):
+				out.Note += "NOT ended by the server although silent for more than the idle timeout; "
 			}
-		default:
-			out.Returned = false
-			out.Class = "wedged"
+		}
+		closeFlooder()
+		e.observe(o, &out)
+		st.reset()
+		if !out.Returned {
+			if rec := e.s.rec(st.tag, 0); rec != nil {
+				select {
+				case <-rec.returned:
+					out.Note += "the shell returned only after the client reset the connection; "
+				case <-time.After(e.deadline):
+					out.Note += "the shell did not return even after the client reset the connection; "
+				}
+			}
 		}
 	}
 	if !otherOK {
@@ -986,10 +1117,11 @@ func planFor(tier string, burstReps int) []scriptSpec {
 	for k := 0; k < 6; k++ {
 		p = append(p, scriptSpec{fmt.Sprintf("hostile:%d", k), 1})
 	}
-	p = append(p, scriptSpec{"stall", 1})
+	p = append(p, scriptSpec{"stall:0", 1}, scriptSpec{"stall:1", 1})
 	for _, n := range []int{1, 8, 9, 40, 300} {
 		p = append(p, scriptSpec{fmt.Sprintf("burst:%d:0", n), burstReps}, scriptSpec{fmt.Sprintf("burst:%d:1", n), burstReps / 4})
 	}
+	p = append(p, scriptSpec{"burstmix:600:0", burstReps / 4}, scriptSpec{"burstmix:600:1", burstReps / 4})
 	return p
 }
 
@@ -1013,9 +1145,15 @@ func (e *l2env) run(name string, rep int) Outcome {
 	case "hostile":
 		o = e.scriptHostile(arg(1))
 	case "stall":
-		o = e.scriptStallThenClose()
+		o = e.scriptStall(arg(1))
 	case "burst":
 		o = e.scriptBurst(arg(1), arg(2) == 1, rep)
+	case "burstmix":
+		params := ""
+		if arg(2) == 1 {
+			params = "frame=200us"
+		}
+		o = e.scriptBurstMix(arg(1), rep, params)
 	default:
 		o = Outcome{Script: name, Class: "setup-failed", Note: "unknown script"}
 	}
@@ -1059,8 +1197,14 @@ func l2Child(args []string) int {
 			o := e.run(name, r)
 			emit("O", o)
 			// a witness that lost its connection (it should never) is replaced so that later scripts still run
+			if o.Joined && o.Class != "clean" {
+				// the session of the witnesses may be damaged by what just happened: later runs get fresh ones
+				e.w1.tcp.Close()
+				e.w2.tcp.Close()
+				time.Sleep(50 * time.Millisecond)
+			}
 			if e.w1.isClosed() || e.w2.isClosed() {
-				emit("W", map[string]string{"note": "a witness connection was closed by the server after " + name})
+				emit("W", map[string]string{"note": "witnesses replaced after " + name})
 				if err := e.setupWitnesses(); err != nil {
 					emit("X", map[string]string{"error": "witness setup: " + err.Error()})
 					return 3
@@ -1102,7 +1246,7 @@ func l2Parent(args []string) int {
 		}
 		plan = p2
 	}
-	rep := l2Report{Counts: map[string]map[string]int{}}
+	rep := l2Report{Counts: map[string]map[string]int{}, Violations: []Outcome{}, Outcomes: []Outcome{}, Crashes: []map[string]string{}}
 	self, _ := os.Executable()
 	distinct := map[string]bool{}
 	idx, from := 0, 0
